@@ -283,6 +283,53 @@ func checkMainShutdown(prog *core.Program, r1 *core.RuleRun, mainFn *ssa.Functio
 				if c.Common().IsInvoke() && len(cl.Params) > 0 && c.Common().Value == ssa.Value(cl.Params[0]) {
 					gs.method = c.Common().Method.Name()
 				}
+				// the method passed as a value (`spawn(protos, proto.run)`): a call of a function value that resolves to
+				// the method's thunk, applied to the goroutine's own argument
+				if !c.Common().IsInvoke() && c.Common().StaticCallee() == nil && len(cl.Params) > 0 && len(c.Common().Args) == 1 && c.Common().Args[0] == ssa.Value(cl.Params[0]) {
+					v := c.Common().Value
+					for depth := 0; depth < 8 && v != nil; depth++ {
+						switch x := v.(type) {
+						case *ssa.Function:
+							n := strings.TrimSuffix(strings.TrimSuffix(x.Name(), "$thunk"), "$bound")
+							if i := strings.LastIndex(n, "."); i >= 0 {
+								n = n[i+1:]
+							}
+							gs.method = n
+							v = nil
+						case *ssa.FreeVar:
+							v = nil
+							for fi, fv := range cl.FreeVars {
+								if fv == x && fi < len(mc.Bindings) {
+									v = mc.Bindings[fi]
+								}
+							}
+						case *ssa.UnOp:
+							if x.Op == token.MUL {
+								if st := core.ReachingStores(x); len(st) == 1 {
+									v = st[0]
+								} else if st2 := core.StoresTo(x.X); len(st2) == 1 {
+									v = st2[0]
+								} else {
+									v = x.X
+								}
+							} else {
+								v = nil
+							}
+						case *ssa.Alloc:
+							if st := core.StoresTo(x); len(st) == 1 {
+								v = st[0]
+							} else {
+								v = nil
+							}
+						case *ssa.ChangeType:
+							v = x.X
+						case *ssa.Parameter:
+							v = nil
+						default:
+							v = nil
+						}
+					}
+				}
 				if _, isDefer := i2.(*ssa.Defer); isDefer && calleeName(c) == "(*sync.WaitGroup).Done" {
 					gs.doneOK = true
 				}
@@ -454,12 +501,11 @@ func checkWorkerLeavesOnClose(r6 *core.RuleRun, p *pipeline) {
 	}
 	loop := core.LoopOf(p.worker, p.recv)
 	leaves := false
-	for _, ref := range referrers(okV) {
-		if ifi, ok := ref.(*ssa.If); ok && loop != nil {
-			if !loop.Blocks[ifi.Block().Succs[1]] {
-				leaves = true
-			}
-		}
+	if loop != nil {
+		// with the received-ok flag false no path from the receive comes back to the loop header
+		res := core.CountQuery{Fn: p.worker, Start: p.recv, Stop: core.IterationStop(loop), EdgeOK: boolEdgeFilter(okV, false)}.Run()
+		_, again := res.Max["latch"]
+		leaves = !again
 	}
 	r6.Check(leaves, name+":closed-queue", p.recv.Pos(), "closed queue => the worker leaves its loop", "on a closed queue the worker stays in its loop")
 }
